@@ -408,3 +408,55 @@ func VerifC29Name(h *verifrt.H) {
 	h.Assert(got == name, "name-lookup-equals-written-name")
 	h.Cover("end")
 }
+
+// VerifC29LongName: the stored name is found again for long names too. Name lengths are the
+// buffer-size boundary classes 2^k-1, 2^k, 2^k+1 for k = 5..maxPow (plus 65535, the format
+// maximum, when maxPow = 16), every byte symbolic; fresh file, file with a second append
+// session, and compacted file. ReadSwampName, FileReader.GetSwampName and LoadIndex all
+// return exactly the written name.
+func VerifC29LongName(h *verifrt.H) {
+	path := h.TempDir() + "/n.hyd"
+	maxPow := h.Param("maxPow", 12)
+	var lens []int
+	for k := 5; k <= maxPow; k++ {
+		for d := -1; d <= 1; d++ {
+			if n := (1 << k) + d; n <= 65535 {
+				lens = append(lens, n)
+			}
+		}
+	}
+	n := lens[h.Choose("nameLenClass", len(lens))]
+	name := h.String("name", n)
+	layout := h.Choose("layout", 3)
+	w, err := NewFileWriterWithName(path, 32, name)
+	h.Assert(err == nil, "open")
+	h.Assert(w.WriteEntry(Entry{Operation: OpInsert, Key: "a", Data: []byte{1}}) == nil, "write")
+	h.Assert(w.Close() == nil, "close")
+	switch layout {
+	case 1:
+		w, err = NewFileWriter(path, 32)
+		h.Assert(err == nil, "reopen")
+		h.Assert(w.WriteEntry(Entry{Operation: OpUpdate, Key: "a", Data: []byte{2}}) == nil, "write2")
+		h.Assert(w.Close() == nil, "close2")
+	case 2:
+		w, err = NewFileWriter(path, 32)
+		h.Assert(err == nil, "reopen")
+		h.Assert(w.WriteEntry(Entry{Operation: OpUpdate, Key: "a", Data: []byte{2}}) == nil, "write2")
+		h.Assert(w.Close() == nil, "close2")
+		res, cerr := NewCompactor(path, 32, 0.01).Compact()
+		h.Assert(cerr == nil && res.Compacted, "compact")
+	}
+	got, err := ReadSwampName(path)
+	h.Assert(err == nil, "long-name-lookup-ok")
+	h.Assert(got == name, "long-name-lookup-equals-written-name")
+	r, err := NewFileReader(path)
+	h.Assert(err == nil, "long-name-open")
+	if err == nil {
+		h.Assert(r.GetSwampName() == name, "long-name-reader-equals-written-name")
+		_, ln, lerr := r.LoadIndex()
+		r.Close()
+		h.Assert(lerr == nil && ln == name, "long-name-load-equals-written-name")
+	}
+	h.Cover("end")
+}
+
